@@ -342,6 +342,14 @@ def run_case(c):
                 return [e[2] for b in t.bars for e in b.bar if e[2] is not None]
             nc_ops = [lambda n: n.transpose("2"), lambda n: n.add_note("B"), lambda n: n.notes[0].augment(), lambda n: n.empty()]
             scenario("entries of a track built from a chord list", chord_entries, nc_ops)
+            def split_entries():
+                # a chord longer than what is left of its bar is split across the bar line: two entries, two containers
+                from mingus.containers import Bar
+                t = Track()
+                t.add_bar(Bar("C", (3, 4)))
+                t.from_chords(["C", "Am"], 1)
+                return [e[2] for b in t.bars for e in b.bar if e[2] is not None]
+            scenario("entries of a track whose chords were split across bar lines", split_entries, nc_ops)
             def chord_entries_tuned():
                 from mingus.extra import tunings as _t
                 t = Track()
